@@ -60,6 +60,34 @@ Proof.
   reflexivity.
 Qed.
 
+(** the case the default configuration meets on mixtures: strict_cc_count, pattern with
+    fewer components than the host (e.g. a connected pattern in a host of several
+    molecules).  The component-aware search returns [] by the documented parameter, so
+    the fallback strategy must return - and does return - the exhaustive set. *)
+Theorem bt_strict_fallback (H P : graph) :
+  vf2_contract enum H P (node_ids H) (node_ids P) ->
+  0 < length (comps P) -> length (comps P) < length (comps H) ->
+  exists T0 : N, forall T : N, (T0 <= T)%N ->
+  let R := find enum (Cfg 2 0 T true false) H P in
+  find enum (Cfg 1 0 T true false) H P = [] /\
+  R = find enum (Cfg 0 0 T true false) H P /\
+  (forall m, In m R -> is_mono H P m) /\
+  (forall m, is_mono H P m -> exists m', In m' R /\ Permutation m m') /\
+  NoDupA (@Permutation (N * N)) R.
+Proof.
+  intros Hc Hpos Hlt.
+  exists (N.max (comp_bound enum true H P) (lenN (enum (node_ids H) (node_ids P)))).
+  intros T HT. cbv zeta.
+  assert (Ec : comp_unl enum true H P = []).
+  { unfold comp_unl. destruct (length (comps P) =? 0) eqn:E0; [apply Nat.eqb_eq in E0; lia|].
+    destruct (length (comps H) <? length (comps P)) eqn:E1; [apply Nat.ltb_lt in E1; lia|].
+    apply Nat.ltb_lt in Hlt. rewrite Hlt. reflexivity. }
+  rewrite (find_bt_unlimited enum T true H P) by lia.
+  rewrite (find_comp_unlimited enum T true H P) by lia.
+  rewrite (find_all_unlimited enum T true H P) by lia.
+  unfold bt_unl_result. rewrite Ec. split; [reflexivity|]. split; [reflexivity|]. exact Hc.
+Qed.
+
 (** result limits, all strategies *)
 Definition embeddings_of_component (H : graph) (pc : list N) : list (nat * mapping) :=
   flat_map (fun ih => map (pair (fst ih)) (enum (snd ih) pc))
@@ -223,6 +251,34 @@ Example ex_bt_fallback :
   find (monos_on Hx P1) (Cfg 2 0 5000 true false) Hx P1 = find (monos_on Hx P1) (Cfg 0 0 5000 true false) Hx P1 /\
   find (monos_on Hx P1) (Cfg 1 0 5000 true false) Hx P1 = [].
 Proof. split; vm_compute; reflexivity. Qed.
+
+(** the seeded-change witness (round 2): hydroxyl pattern C10-O11(H) in the mixture
+    ethanol + acetic acid + water (3 components), default strict_cc_count: comp = [] by the
+    parameter, bt = all = the two C-OH sites.  Labels: ([element; charge], hcount), C = 1,
+    O = 2, charge 0 = 1; bond orders 1, 2. *)
+Definition Mix : graph :=
+  LG [(1, ([1; 1], 3)); (2, ([1; 1], 2)); (3, ([2; 1], 1)); (4, ([1; 1], 3)); (5, ([1; 1], 0));
+      (6, ([2; 1], 0)); (7, ([2; 1], 1)); (8, ([2; 1], 2))]%N
+     [(1, 2, [1]); (2, 3, [1]); (4, 5, [1]); (5, 6, [2]); (5, 7, [1])]%N.
+Definition COH : graph := LG [(10, ([1; 1], 0)); (11, ([2; 1], 1))]%N [(10, 11, [1])]%N.
+
+Example ex_bt_strict_mixture :
+  length (comps Mix) = 3 /\ length (comps COH) = 1 /\
+  find (monos_on Mix COH) (Cfg 1 0 5000 true false) Mix COH = [] /\
+  find (monos_on Mix COH) (Cfg 2 0 5000 true false) Mix COH = find (monos_on Mix COH) (Cfg 0 0 5000 true false) Mix COH /\
+  find (monos_on Mix COH) (Cfg 2 0 5000 true false) Mix COH = [[(11, 3); (10, 2)]; [(11, 7); (10, 5)]]%N.
+Proof. repeat split; vm_compute; reflexivity. Qed.
+
+(** the premises of [bt_strict_fallback] hold for it *)
+Example ex_bt_strict_mixture_premises :
+  vf2_contract (monos_on Mix COH) Mix COH (node_ids Mix) (node_ids COH) /\
+  0 < length (comps COH) /\ length (comps COH) < length (comps Mix).
+Proof.
+  split; [|split; vm_compute; lia].
+  assert (Hw : gwf COH) by (apply gwfb_spec; vm_compute; reflexivity).
+  assert (Hm : gwf Mix) by (apply gwfb_spec; vm_compute; reflexivity).
+  apply monos_on_contract; [exact Hw|apply Hm|apply Hw].
+Qed.
 
 (** limits: truncation, emptying, and the per-component enumeration guard *)
 Example ex_limits :
